@@ -181,6 +181,33 @@ type refLimiter struct {
 	burst    float64
 	t0       time.Time
 	admitted []time.Time
+	// admittedHi: the latest instant each admission can have happened at (differs
+	// from admitted only for requests of a race during which the clock moved)
+	admittedHi []time.Time
+}
+
+// admit records an admission that happened somewhere in [lo, hi].
+func (l *refLimiter) admit(lo, hi time.Time) {
+	l.admitted = append(l.admitted, lo)
+	l.admittedHi = append(l.admittedHi, hi)
+}
+
+// slackHi is slack under the most pessimistic reading of uncertain admission
+// times (every earlier admission as late as it can have been): room that exists
+// even then is room the limiter really has.
+func (l *refLimiter) slackHi(t time.Time) float64 {
+	best := l.burst + l.rps*t.Sub(l.t0).Seconds() - float64(len(l.admittedHi)+1)
+	if best > l.burst-1 {
+		best = l.burst - 1 // the bucket holds at most burst
+	}
+	for i, ti := range l.admittedHi {
+		cnt := float64(len(l.admittedHi)-i) + 1
+		m := l.burst + l.rps*t.Sub(ti).Seconds() - cnt
+		if m < best {
+			best = m
+		}
+	}
+	return best
 }
 
 func newRefLimiter(r *RateSpec, t0 time.Time) *refLimiter {
